@@ -44,6 +44,13 @@ fn judge(log: &mut MonitorLog, what: &str, kind: &str, text: &str, static_type: 
         log.compound_events += 1;
     }
     *log.hits.entry((kind.to_string(), static_type.shape())).or_default() += 1;
+    if log.violations.len() < 8
+        && let Some(why) = ty::labels_ok(value, 0)
+    {
+        let only_void_for_never = ty::relaxed(|| ty::labels_ok(value, 0).is_none());
+        let sig = if only_void_for_never { "C01:void-for-never".to_string() } else { format!("C01:{what}:{kind}:label") };
+        log.violations.push(TypeViolation { sig, msg: format!("{what} of `{text}` ({kind}): {why}") });
+    }
     let why = ty::tag_not_sub(value, static_type).or_else(|| ty::not_inhabits(value, static_type, 0));
     if let Some(why) = why
         && log.violations.len() < 8
